@@ -254,8 +254,12 @@ func oracleC01(c *Sexp, obs parseObs) string {
 			return s
 		}
 	}
-	if isMonotoneCase(c) {
+	exact, acyclic := exactEndsAcyclic(c, input)
+	if isMonotoneCase(c) || acyclic {
 		want := upper
+		if acyclic && !hasNameOrSingleOverOptional(c) {
+			want = exact
+		}
 		if root.Head() == "sentence" {
 			// the Sentence wrapper stops at the first alternative that reaches the end of input
 			if (want != 0) != (got != 0) {
@@ -287,6 +291,12 @@ func oracleSentenceIff(c *Sexp, obs parseObs) string {
 	if ok && !derivable {
 		return "Sentence succeeded although no derivation consumes the whole input"
 	}
+	if exact, acyclic := exactEndsAcyclic(c, input); acyclic {
+		if ok != (exact != 0) {
+			return fmt.Sprintf("Sentence succeeded: %v, but by the operators' documented rules a derivation consuming the whole input exists: %v", ok, exact != 0)
+		}
+		return ""
+	}
 	if !ok && derivable && isMonotoneCase(c) {
 		return fmt.Sprintf("Sentence failed (%v) although a derivation consumes the whole input", obs.perr)
 	}
@@ -294,3 +304,202 @@ func oracleSentenceIff(c *Sexp, obs parseObs) string {
 }
 
 var _ = sort.Ints
+
+// ---- exact end positions for ACYCLIC grammars (no recursion at all), including the non-monotone
+// operators with their documented first-match / longest-path rules ------------------------------------
+
+func envAcyclic(env []*Sexp) bool {
+	n := len(env)
+	adj := make([][]int, n)
+	var refs func(t *Sexp, out *[]int)
+	refs = func(t *Sexp, out *[]int) {
+		if t.Head() == "ref" {
+			*out = append(*out, t.List[1].Int())
+		}
+		for _, x := range t.List {
+			if x.IsL {
+				refs(x, out)
+			}
+		}
+	}
+	for i, e := range env {
+		refs(e, &adj[i])
+	}
+	color := make([]int, n)
+	var dfs func(int) bool
+	dfs = func(u int) bool {
+		color[u] = 1
+		for _, v := range adj[u] {
+			if color[v] == 1 || (color[v] == 0 && !dfs(v)) {
+				return false
+			}
+		}
+		color[u] = 2
+		return true
+	}
+	for i := 0; i < n; i++ {
+		if color[i] == 0 && !dfs(i) {
+			return false
+		}
+	}
+	return true
+}
+
+type exactEval struct {
+	env   []*Sexp
+	input []byte
+	memo  map[*Sexp]map[int]uint64
+	steps int
+}
+
+func (ev *exactEval) stepSet(from uint64, term *Sexp) uint64 {
+	var out uint64
+	for i := 0; i <= len(ev.input); i++ {
+		if from&(1<<uint(i)) != 0 {
+			out |= ev.ends(term, i)
+		}
+	}
+	return out
+}
+
+func (ev *exactEval) ends(t *Sexp, i int) uint64 {
+	if m, ok := ev.memo[t]; ok {
+		if v, ok := m[i]; ok {
+			return v
+		}
+	} else {
+		ev.memo[t] = map[int]uint64{}
+	}
+	v := ev.compute(t, i)
+	ev.memo[t][i] = v
+	return v
+}
+
+func (ev *exactEval) compute(t *Sexp, i int) uint64 {
+	a := t.Args()
+	n := len(ev.input)
+	bit := func(p int) uint64 { return 1 << uint(p) }
+	switch t.Head() {
+	case "rune":
+		if i < n && int(ev.input[i]) == a[0].Int() {
+			return bit(i + 1)
+		}
+		return 0
+	case "empty":
+		return bit(i)
+	case "eof":
+		if i == n {
+			return bit(i)
+		}
+		return 0
+	case "ref":
+		return ev.ends(ev.env[a[0].Int()], i)
+	case "memo":
+		return ev.ends(a[1], i)
+	case "any":
+		var out uint64
+		for _, x := range a {
+			out |= ev.ends(x, i)
+		}
+		return out
+	case "choice":
+		for _, x := range a {
+			if v := ev.ends(x, i); v != 0 {
+				return v
+			}
+		}
+		return 0
+	case "seq":
+		els := a[2:]
+		l := len(els)
+		cur := bit(i)
+		var out uint64
+		for k := 0; k <= l; k++ {
+			// cur = positions after k elements
+			lenOK := false
+			switch a[0].Atom {
+			case "of":
+				lenOK = k == l
+			case "try":
+				lenOK = k > 0 && k <= l
+			case "foa":
+				lenOK = k == 1 || k == l
+			}
+			if lenOK {
+				for p := 0; p <= n; p++ {
+					if cur&bit(p) != 0 && (k == l || ev.ends(els[k], p) == 0) {
+						out |= bit(p)
+					}
+				}
+			}
+			if k < l {
+				cur = ev.stepSet(cur, els[k])
+			}
+		}
+		return out
+	case "sentence":
+		return ev.stepSet(ev.ends(a[0], i), LA("eof"))
+	case "many":
+		var out uint64
+		visited := uint64(0)
+		frontier := bit(i)
+		depth := 0
+		for frontier != 0 && depth <= n+2 {
+			for p := 0; p <= n; p++ {
+				if frontier&bit(p) != 0 && (depth > 0 || a[0].Int() != 0) && ev.ends(a[2], p) == 0 {
+					out |= bit(p)
+				}
+			}
+			visited |= frontier
+			frontier = ev.stepSet(frontier, a[2]) &^ visited
+			depth++
+		}
+		return out
+	case "sepby":
+		var out uint64
+		// state: (position, parity of the number of elements parsed so far)
+		var seen [2]uint64
+		frontier := [2]uint64{bit(i), 0}
+		first := true
+		for (frontier[0] != 0 || frontier[1] != 0) && ev.steps < 1000000 {
+			ev.steps++
+			var next [2]uint64
+			for p := 0; p <= n; p++ {
+				if frontier[0]&bit(p) != 0 { // even count: next is the value parser
+					if first && a[0].Int() != 0 && ev.ends(a[2], p) == 0 {
+						out |= bit(p)
+					}
+					next[1] |= ev.ends(a[2], p)
+				}
+				if frontier[1]&bit(p) != 0 { // odd count: next is the separator
+					if ev.ends(a[3], p) == 0 {
+						out |= bit(p)
+					}
+					next[0] |= ev.ends(a[3], p)
+				}
+			}
+			first = false
+			seen[0] |= frontier[0]
+			seen[1] |= frontier[1]
+			frontier = [2]uint64{next[0] &^ seen[0], next[1] &^ seen[1]}
+		}
+		return out
+	case "opt":
+		return ev.ends(a[0], i) | bit(i)
+	case "name", "ltrim", "rtrim":
+		return ev.ends(a[1], i)
+	case "single", "suppress":
+		return ev.ends(a[0], i)
+	}
+	return 0
+}
+
+// exactEndsAcyclic returns (set, true) when the grammar has no recursion
+func exactEndsAcyclic(c *Sexp, input []byte) (uint64, bool) {
+	env := findArg(c, "env")
+	if !envAcyclic(env) {
+		return 0, false
+	}
+	ev := &exactEval{env: env, input: input, memo: map[*Sexp]map[int]uint64{}}
+	return ev.ends(findArg(c, "root")[0], 0), true
+}
